@@ -100,6 +100,7 @@ class Ctx:
         self.checker_cmds = []
         self.extra = {}
         self.level = 'proof'
+        self._markfd = None
         import numpy as np
         self.rng = np.random.default_rng(seed)
         kf = os.path.join(VERIF, 'known_findings.json')
@@ -240,6 +241,15 @@ class Ctx:
         return out
 
     # ---------------------------------------------------------------- records
+    def mark(self, s):
+        """remember the request about to be put to the implementation: if native code takes the interpreter down,
+        the supervising process (run.py) reports this request as the failing input"""
+        if self._markfd is None:
+            mf = os.environ.get('VERIF_MARKFILE')
+            self._markfd = os.open(mf, os.O_WRONLY | os.O_CREAT, 0o644) if mf else -1
+        if self._markfd >= 0:
+            os.pwrite(self._markfd, str(s)[:4000].encode('utf-8', 'replace').ljust(4096, b'\x00'), 0)
+
     def obligation(self, name, ok, detail=''):
         self.obligations.append({'name': name, 'ok': bool(ok), 'detail': detail[:600]})
 
